@@ -24,7 +24,7 @@ def sanitize(module, name):
     return re.sub(r'[^A-Za-z0-9]', '_', module) + '__' + re.sub(r'[^A-Za-z0-9]', '_', name)
 
 
-def mock_imports(rep, text):
+def mock_imports(rep, text, prefix='crate::mockhost'):
     """Rule R1 (the only edit made to generated text, and only when a harness needs to observe import calls): the
     generator emits, next to each wasm import declaration, a native stand-in
         #[cfg(not(target_arch = "wasm32"))] unsafe extern "C" fn F(_: T, ..) -> R { unreachable!() }
@@ -42,7 +42,7 @@ def mock_imports(rep, text):
             return m.group(0)
         tys = [a.split(':', 1)[1].strip() for a in args.split(',') if a.strip()]
         params = ', '.join('a%d: %s' % (i, t) for i, t in enumerate(tys))
-        call = 'crate::mockhost::%s(%s)' % (sanitize(module, link), ', '.join('a%d' % i for i in range(len(tys))))
+        call = '%s::%s(%s)' % (prefix, sanitize(module, link), ', '.join('a%d' % i for i in range(len(tys))))
         n[0] += 1
         names.append('%s / %s' % (module, link))
         head = m.group(0)[:m.group(0).index('#[cfg(not(target_arch')]
@@ -56,7 +56,7 @@ def mock_imports(rep, text):
     return out
 
 
-def generate(rep, name, extra_args=(), mock=False):
+def generate(rep, name, extra_args=(), mock=False, mock_prefix='crate::mockhost'):
     """kani/<name>/{probe.wit, lib.rs, Cargo.toml.in} -> .build/<name>/ with src/probe.rs generated; returns the crate dir"""
     cli = build_cli(rep)
     src = os.path.join(VERIF, 'kani', name)
@@ -77,7 +77,7 @@ def generate(rep, name, extra_args=(), mock=False):
     import hashlib
     gen = open(os.path.join(d, 'src/probe.rs')).read()
     if mock:
-        open(os.path.join(d, 'src/probe.rs'), 'w').write(mock_imports(rep, gen))
+        open(os.path.join(d, 'src/probe.rs'), 'w').write(mock_imports(rep, gen, mock_prefix))
     rep.functions.append('generated bindings %s/src/probe.rs (%d lines, sha256/16=%s): output of `%s`, the real Rust generator built from %s; '
                          'verified as generated, nothing hand-edited' % (d, gen.count('\n'), hashlib.sha256(gen.encode()).hexdigest()[:16],
                                                                          'wit-bindgen rust kani/%s/probe.wit %s' % (name, ' '.join(extra_args)), REPO))
